@@ -191,6 +191,40 @@ pub fn check_hashes(v: u8, e: &BTreeMap<String, V>, cx: &mut CaseCtx) -> Result<
         if h.as_bytes() != want || h.encode() != b64(&want, false) {
             return Err(format!("content_hash = {}, the specification gives {}", h.encode(), b64(&want, false)));
         }
+        // the hash that hash_and_sign_event stores is this function of the event, whatever
+        // `hashes` the event carried before (stale, foreign or other algorithms)
+        if e.contains_key("sender") && form.len() < 60_000 {
+            let kp = ruma_signatures::Ed25519KeyPair::from_der(&crate::keys::der_v1(&[7; 32]), "1".into()).map_err(|x| format!("from_der: {x}"))?;
+            for prior in [None, Some(("sha256", "c3RhbGU")), Some(("md5", "AAAA"))] {
+                let mut o = obj.clone();
+                match prior {
+                    None => {
+                        o.remove("hashes");
+                    }
+                    Some((alg, val)) => {
+                        let mut h = CanonicalJsonObject::new();
+                        h.insert(alg.to_owned(), CanonicalJsonValue::String(val.to_owned()));
+                        if alg == "md5" {
+                            h.insert("sha256".to_owned(), CanonicalJsonValue::String(b64(&sha256(b"other event"), false)));
+                        }
+                        o.insert("hashes".to_owned(), CanonicalJsonValue::Object(h));
+                    }
+                }
+                if ruma_signatures::hash_and_sign_event("a.example", &kp, &mut o, &rules.redaction).is_ok() {
+                    let stored = match o.get("hashes") {
+                        Some(CanonicalJsonValue::Object(h)) => match h.get("sha256") {
+                            Some(CanonicalJsonValue::String(x)) => x.clone(),
+                            _ => String::new(),
+                        },
+                        _ => String::new(),
+                    };
+                    if stored != b64(&want, false) {
+                        return Err(format!("hash_and_sign_event stored hashes.sha256 = {stored:?} for an event that carried {prior:?} before; the content hash is {}", b64(&want, false)));
+                    }
+                    cx.class("stored_hash_after_hash_and_sign");
+                }
+            }
+        }
         Some(h.encode())
     };
     // reference hash
